@@ -726,7 +726,9 @@ func (b *BFT) SafeNode(msg *Message) lib.ErrorI {
 		return nil // SAFETY (SAME PROPOSAL AS LOCKED)
 	}
 	// if the view of the Locked proposal is older than the Leader's message
-	if msg.HighQc.Header.Round > b.HighQC.Header.Round {
+	// NOTE: rounds restart at 0 on a NEW_COMMITTEE reset while locks are kept, so the views are compared
+	// by (root height, round) and not by the round number alone
+	if b.HighQC.Header.Less(msg.HighQc.Header) {
 		b.log.Infof("Proposal %s satisfied the safe node predicate with LIVENESS", lib.BytesToTruncatedString(b.HighQC.BlockHash))
 		return nil // LIVENESS (HIGHER ROUND v COMMITTEE THAN LOCKED)
 	}
